@@ -305,6 +305,62 @@ let zeros64 : n list = List.init 64 (fun _ -> N0)
 let hash_oracle (tab : (n list * n list) list) (x : n list) : n list =
   match List.find_opt (fun (k, _) -> k = x) tab with Some (_, h) -> h | None -> zeros64
 
+
+(* ---- Blake2b-512 (RFC 7693, unkeyed), used as the strong hash H where candidate payloads cannot be tabulated in
+   advance (misbehaving servers); checked against every (input, hash) pair the harness supplies ---- *)
+let b2_iv = [| 0x6a09e667f3bcc908L; 0xbb67ae8584caa73bL; 0x3c6ef372fe94f82bL; 0xa54ff53a5f1d36f1L;
+               0x510e527fade682d1L; 0x9b05688c2b3e6c1fL; 0x1f83d9abfb41bd6bL; 0x5be0cd19137e2179L |]
+let b2_sigma = [|
+  [| 0; 1; 2; 3; 4; 5; 6; 7; 8; 9; 10; 11; 12; 13; 14; 15 |]; [| 14; 10; 4; 8; 9; 15; 13; 6; 1; 12; 0; 2; 11; 7; 5; 3 |];
+  [| 11; 8; 12; 0; 5; 2; 15; 13; 10; 14; 3; 6; 7; 1; 9; 4 |]; [| 7; 9; 3; 1; 13; 12; 11; 14; 2; 6; 5; 10; 4; 0; 15; 8 |];
+  [| 9; 0; 5; 7; 2; 4; 10; 15; 14; 1; 11; 12; 6; 8; 3; 13 |]; [| 2; 12; 6; 10; 0; 11; 8; 3; 4; 13; 7; 5; 15; 14; 1; 9 |];
+  [| 12; 5; 1; 15; 14; 13; 4; 10; 0; 7; 6; 3; 9; 2; 8; 11 |]; [| 13; 11; 7; 14; 12; 1; 3; 9; 5; 0; 15; 4; 8; 6; 2; 10 |];
+  [| 6; 15; 14; 9; 11; 3; 0; 8; 12; 2; 13; 7; 1; 4; 10; 5 |]; [| 10; 2; 8; 4; 7; 6; 1; 5; 15; 11; 9; 14; 3; 12; 13; 0 |] |]
+let b2_rotr x n = Int64.logor (Int64.shift_right_logical x n) (Int64.shift_left x (64 - n))
+let blake2b_512 (input : int array) : int array =
+  let h = Array.copy b2_iv in
+  h.(0) <- Int64.logxor h.(0) 0x01010040L;
+  let len = Array.length input in
+  let compress (block_start : int) (block_len : int) (t : int) (last : bool) =
+    let m = Array.make 16 0L in
+    for i = 0 to block_len - 1 do
+      let w = i / 8 and sh = 8 * (i mod 8) in
+      m.(w) <- Int64.logor m.(w) (Int64.shift_left (Int64.of_int input.(block_start + i)) sh)
+    done;
+    let v = Array.make 16 0L in
+    for i = 0 to 7 do v.(i) <- h.(i); v.(i + 8) <- b2_iv.(i) done;
+    v.(12) <- Int64.logxor v.(12) (Int64.of_int t);
+    if last then v.(14) <- Int64.lognot v.(14);
+    let g a b c d x y =
+      v.(a) <- Int64.add (Int64.add v.(a) v.(b)) x;
+      v.(d) <- b2_rotr (Int64.logxor v.(d) v.(a)) 32;
+      v.(c) <- Int64.add v.(c) v.(d);
+      v.(b) <- b2_rotr (Int64.logxor v.(b) v.(c)) 24;
+      v.(a) <- Int64.add (Int64.add v.(a) v.(b)) y;
+      v.(d) <- b2_rotr (Int64.logxor v.(d) v.(a)) 16;
+      v.(c) <- Int64.add v.(c) v.(d);
+      v.(b) <- b2_rotr (Int64.logxor v.(b) v.(c)) 63 in
+    for r = 0 to 11 do
+      let s = b2_sigma.(r mod 10) in
+      g 0 4 8 12 m.(s.(0)) m.(s.(1)); g 1 5 9 13 m.(s.(2)) m.(s.(3));
+      g 2 6 10 14 m.(s.(4)) m.(s.(5)); g 3 7 11 15 m.(s.(6)) m.(s.(7));
+      g 0 5 10 15 m.(s.(8)) m.(s.(9)); g 1 6 11 12 m.(s.(10)) m.(s.(11));
+      g 2 7 8 13 m.(s.(12)) m.(s.(13)); g 3 4 9 14 m.(s.(14)) m.(s.(15))
+    done;
+    for i = 0 to 7 do h.(i) <- Int64.logxor h.(i) (Int64.logxor v.(i) v.(i + 8)) done in
+  let pos = ref 0 in
+  while len - !pos > 128 do
+    compress !pos 128 (!pos + 128) false;
+    pos := !pos + 128
+  done;
+  compress !pos (len - !pos) len true;
+  Array.init 64 (fun i -> Int64.to_int (Int64.logand (Int64.shift_right_logical h.(i / 8) (8 * (i mod 8))) 0xffL))
+
+let real_hash (tab : (n list * n list) list) : n list -> n list =
+  let h x = List.map n_of_int (Array.to_list (blake2b_512 (Array.of_list (List.map int_of_n x)))) in
+  List.iter (fun (k, v) -> if h k <> v then failwith "blake2b self-test: the runner's hash differs from a pair supplied by the harness") tab;
+  h
+
 let pr_cfg (c : config) : string =
   (match c.c_algo with ABuzHash -> "B" | ARollSum -> "R" | AFixed -> "F") ^ "," ^ pr_nlist [ c.c_bits; c.c_min; c.c_max; c.c_win ]
 
@@ -527,6 +583,16 @@ let run_cbytes with_writes toks =
       else pr_clone_out (open_and_clone_bytes (hash_oracle (htab @ extra)) decompf f prior (inpl = "1") seeds)
   | _ -> failwith "cbytes"
 
+
+(* ---- a whole clone over http against a scripted server ---- *)
+let run_httpclone toks =
+  match toks with
+  | [ b; hh; tab; retries; script ] ->
+      let (f, htab, decompf) = aclone_tables b hh tab in
+      let (res, log) = http_clone (real_hash htab) decompf f (n_of_string retries) (script_of script) in
+      pr_clone_out res ^ " | " ^ pr_log log
+  | _ -> failwith "httpclone"
+
 let dispatch (line : string) : string =
   match split_on ' ' line with
   | "hash" :: r -> run_hash r
@@ -547,6 +613,7 @@ let dispatch (line : string) : string =
   | "aclone" :: r -> run_aclone r
   | "cbytes" :: r -> run_cbytes false r
   | "cbytesw" :: r -> run_cbytes true r
+  | "httpclone" :: r -> run_httpclone r
   | "trace" :: r -> run_trace r
   | "http" :: r -> run_http r
   | "httpat" :: r -> run_httpat r
